@@ -12,14 +12,14 @@ SPEC = {
         'whether every crash image loads is C43\'s clause: an image that does not load is counted (class image-unloadable) but is not a C62 failure',
     ],
     'stages': [
-        gen('vh_c62', 'c62_newaddr', 320, 6000, min_cases_quick=32, max_seconds_quick=600,
+        gen('vh_c62', 'c62_newaddr', 320, 6000, min_cases_quick=32, max_seconds_quick=300,
             floors={'restart': 0.25, 'address-after-restart': 0.2, 'encrypted': 0.25, 'keypool-exhausted': 0.02, 'reservation-returned': 0.15},
             rule='histories of new receive/change addresses of every output type, bursts, TopUpKeyPool, reserve+keep/return, payments to look-ahead addresses, lock/unlock, '
                  'encryption, hardened-range descriptors (keypool exhaustion + refill), clean unload/reload with other keypool sizes on an on-disk SQLite wallet; '
                  'non-trivial = >=1 restart, >=2 addresses after it, >=4 in total; distinct = op-kind sequence + wallet configuration'),
         custom('bin/crashsim/c62_worker.py', 96, 3200, name='c62_crash_images', needs=[('san', 'vh_c62')],
                min_cases_quick=8, floors={'cut-in-focus-window': 0.25, 'mode:kill': 0.4},
-               hard_timeout_quick=2400, max_seconds_quick=420, max_seconds_thorough=5400,
+               hard_timeout_quick=2400, max_seconds_quick=300, max_seconds_thorough=5400,
                rule='1 recorded wallet workload per worker (6 in thorough); cut points after wallet creation, two thirds drawn from the windows around a returned address '
                     '(the cut right after MARK addr and the five file operations before it), each as a kill image plus, when unsynced writes exist, power-loss images; '
                     'the recovery process loads the image, hands out 24+ new addresses and compares with the addresses returned before the cut; non-trivial = image loads, '
